@@ -1233,6 +1233,17 @@ func BV2Int(a *T, signed bool) *T {
 	return mk(OpBV2Int, -1, 0, "", 0, s, a)
 }
 
+// Int2BV converts an Int to a bit-vector of width w (mod 2^w).
+func Int2BV(a *T, w int) *T {
+	if a.IsConst() {
+		return Const(w, a.Val)
+	}
+	if a.Op == OpBV2Int && a.Lo == 0 && a.Args[0].W == w {
+		return a.Args[0]
+	}
+	return mk(OpInt2BV, w, 0, "", 0, 0, a)
+}
+
 // ---- printing for debugging ----
 
 func (t *T) String() string {
